@@ -104,12 +104,17 @@ fn step_kind(s: &mut Mach, ins: &Instr, model: &mut Model, ctx: &mut RunCtx) -> 
                 }
             }
         }
+        Dddmp { .. } => return step_dddmp(s, ins, model, ctx),
         _ => return false,
     }
     true
 }
 
 include!("../exec_body.rs");
+include!("dddmp_body.rs");
+fn complement_edge<'id>(_m: &Mgr<'id>, e: Ed<'id>) -> oxidd::util::AllocResult<Ed<'id>> {
+    Ok(e)
+}
 
 impl Mach {
     pub fn fill_until_oom(&mut self, model: &mut Model, ctx: &mut RunCtx) -> Option<usize> {
